@@ -91,6 +91,7 @@ func init() {
 				{Scenario: "c11_burst", Params: mustJSON(BurstParams{Membership: "static", MaxN: 1, HoldWait: true}), Bound: 0, Shards: 2},
 				{Scenario: "c11_burst", Params: mustJSON(BurstParams{Membership: "dynamic", MaxN: 1, YieldLog: true}), Bound: 1, Shards: 8, Note: "log calls are scheduling points; immediate re-open (dynamic membership): the re-open thread against the tail of the Rebalance() call that armed it, all single deviations (bracketing of the lifecycle callbacks)"},
 				{Scenario: "c11_burst", Params: mustJSON(BurstParams{Membership: "static", MaxN: 2, Tight: true}), Bound: 1, Shards: 8, Note: "two notifications at the same instant (bus + GET /rebalance), all single deviations"},
+				{Scenario: "c11_collections", Params: mustJSON(struct{}{}), Bound: 0, Note: "collection filter next to a busy foreign collection: a stored position reached through a seqno-advanced event lies beyond the streamed collection's own high seqno; the re-open resumes from it"},
 				{Scenario: "c12_afterrebalance", Params: mustJSON(AfterRebParams{ReopenPending: true}), Bound: 0, Shards: 4, Note: "a re-open retry of an earlier transient end sleeps through the whole (immediate) rebalance: every vBucket is open exactly once afterwards, the client runs on"},
 				{Scenario: "c12_afterrebalance", Params: mustJSON(AfterRebParams{OldServer: true}), Bound: 0, Shards: 4, Note: "two rebalances in a row against a server below 5.5.0 (serial close): the second one completes"},
 				{Scenario: "c12_afterrebalance", Params: mustJSON(AfterRebParams{CloseFault: true}), Bound: 0, Shards: 8, Note: "a close-stream request of the rebalance fails (lost reply / dead connection with a transient stream end): the rebalance does not terminate the client"},
@@ -574,4 +575,57 @@ func newAPI(offer ...any) api.API {
 		}
 	}
 	return f.Call(args)[0].Interface().(api.API)
+}
+
+// c11_collections: "reopened ... resuming from the stored checkpoints, a rebalance never terminates the client"
+// with a collection filter configured next to a busy foreign collection: the last thing a vBucket saw is a
+// seqno-advanced event (the item behind it belongs to the other collection), so its stored position lies
+// beyond the streamed collection's own high seqno - and at or below the vBucket's.
+func init() {
+	scenarios["c11_collections"] = func(raw json.RawMessage) *vrt.Scenario {
+		return &vrt.Scenario{Name: "c11_collections", FreeChoices: true, NoTimerAlt: true, MaxSteps: 400000, Main: func() {
+			resetGlobals()
+			restart := vrt.Choose(2, true, "restart-instead-of-rebalance") == 1
+			o := EnvOpts{Vbs: 2, CheckpointType: "manual", WrapMeta: true, RebalanceDelay: time.Second, Collections: []string{"c1"}}
+			c := NewCluster(&o)
+			// vb0: a document of c1, then an item of a foreign collection (announced to the filtered stream as
+			// seqno-advanced); vb1: c1 only
+			c.Append(0, marker(1, 2), docPacket("mutation", 1, "k1", "after", 8), symbolPacket("SEQ", 2))
+			c.Append(1, marker(1, 1), docPacket("mutation", 1, "j1", "after", 8))
+			e := NewEnv(c, o)
+			e.Cons.AutoAck = true
+			e.Stream.Open()
+			c.WaitIdle()
+			vrt.Quiesce()
+			e.Stream.Save()
+			if st, _ := e.StoredSeq(0); st != 2 {
+				vrt.Failf("harness: stored position of vb0 is %d, want 2", st)
+				return
+			}
+			n0 := len(c.Requests)
+			if restart {
+				c.KillAgents()
+				e.Cons.Disabled = true
+				e = NewEnv(c, o)
+				e.Stream.Open()
+			} else {
+				e.Stream.Rebalance()
+				vrt.Sleep(3 * time.Second)
+			}
+			vrt.Quiesce()
+			c.WaitIdle()
+			what := map[bool]string{true: "restart", false: "rebalance"}[restart]
+			for vb := uint16(0); vb < 2; vb++ {
+				if !c.StreamOpen(vb) {
+					vrt.Failf("after a %s: vb%d is not streamed", what, vb)
+				}
+			}
+			for _, r := range c.Requests[n0:] {
+				if r.Kind == "openstream" && r.Vb == 0 && r.Args[2] != 2 {
+					vrt.Failf("after a %s: vb0 was requested from %d, its stored position is 2", what, r.Args[2])
+				}
+			}
+			vrt.SetOutcome(what)
+		}}
+	}
 }
